@@ -1,0 +1,28 @@
+//go:build verif
+
+// Machine-checked contracts (Gobra-style //@ comments) for the verification harness in /verif.
+// This file contains no code; it is compiled only under the build tag "verif".
+package rlp
+
+// ---------------------------------------------------------------------------------------------
+// RLP item headers (C18): the tag byte alone decides kind and header form, and a length is accepted in exactly one
+// form - payloads of 0..55 bytes in the short form, the long form only from 56 bytes on (Ethereum Yellow Paper,
+// appendix B; what the reference decoder accepts). The tag and the explicit length are the values returned by readByte
+// and readUint (kept in ghost variables); reading them from the input is outside this contract.
+
+//@ ghost gTag Int
+//@ ghost gLen Int
+
+//@ func (*Stream).readKind
+//@   props C18
+//@   requires s != nil
+//@   nosafety
+//@   atcall readByte set gTag = result0
+//@   atcall readUint assert [length-of-length-taken-from-the-tag] calls(readByte) == 1 && 184 <= gTag && arg_size == ite(gTag < 192, gTag - 183, gTag - 247) && 1 <= arg_size && arg_size <= 8
+//@   atcall readUint set gLen = result0
+//@   ensures  [one-tag-byte-read] calls(readByte) == 1
+//@   ensures  [single-byte-is-its-own-encoding] err == nil && gTag < 128 ==> kind == Byte && size == 0 && s.byteval == gTag && calls(readUint) == 0
+//@   ensures  [short-string-0-to-55] err == nil && 128 <= gTag && gTag < 184 ==> kind == String && size == gTag - 128 && calls(readUint) == 0
+//@   ensures  [long-string-only-from-56-bytes] err == nil && 184 <= gTag && gTag < 192 ==> kind == String && size == gLen && size >= 56 && calls(readUint) == 1
+//@   ensures  [short-list-0-to-55] err == nil && 192 <= gTag && gTag < 248 ==> kind == List && size == gTag - 192 && calls(readUint) == 0
+//@   ensures  [long-list-only-from-56-bytes] err == nil && 248 <= gTag ==> kind == List && size == gLen && size >= 56 && calls(readUint) == 1
